@@ -2,7 +2,7 @@
    Only the property theorems, closed by [exact]. *)
 From Coq Require Import ZArith List Bool.
 From Coq Require Import Reals.
-From Covfie Require Import Layout Stack StackProofs FloatOps StackFloat StackSafe ClampAbove.
+From Covfie Require Import Numeric Layout Hilbert LayoutMem Stack StackProofs FloatOps StackFloat StackSafe ClampAbove.
 Import ListNotations.
 Local Open Scope Z_scope.
 
@@ -30,6 +30,23 @@ Theorem C10_clamp_safe_over_array : forall t tc sizes lo hi (b : query) c, is_fl
   exists c', clamp_at flocq_ops t lo hi (strided_at tc sizes b) c = b [wrap_sty tc (rowmajor sizes c')] /\
              0 <= rowmajor sizes c' < zprod sizes.
 Proof. exact clamp_safe_over_array. Qed.
+
+(* the same over Morton and Hilbert storage: the position of the clamped coordinate lies inside the padded storage the
+   library allocates for those layers (curve_cap = ipow(round_pow2(max extent), N)), whatever the coordinate *)
+Theorem C10_clamp_safe_over_morton : forall t (sizes lo hi : list Z) (b : query) c, is_float t = false ->
+  length lo = length c -> length hi = length c -> length sizes = length c -> (0 < length sizes)%nat ->
+  Forall2 (fun l h => 0 <= l <= h) lo hi -> Forall2 (fun h s => h < s) hi sizes ->
+  curve_bits sizes <= 64 / Z.of_nat (length sizes) ->
+  exists c', clamp_at flocq_ops t lo hi (morton_at (length sizes) sizes b) c
+               = b [morton (length sizes) (Z.to_nat (64 / Z.of_nat (length sizes))) c'] /\
+             0 <= morton (length sizes) (Z.to_nat (64 / Z.of_nat (length sizes))) c' < curve_cap sizes.
+Proof. exact clamp_safe_over_morton. Qed.
+Theorem C10_clamp_safe_over_hilbert : forall t (sx sy : Z) (lo hi : list Z) (b : query) c, is_float t = false ->
+  length lo = length c -> length hi = length c -> length c = 2%nat ->
+  Forall2 (fun l h => 0 <= l <= h) lo hi -> Forall2 (fun h s => h < s) hi [sx; sy] ->
+  exists x y, clamp_at flocq_ops t lo hi (hilbert_at [sx; sy] b) c = b [Hl (Z.to_nat (curve_bits [sx; sy])) x y] /\
+              0 <= Hl (Z.to_nat (curve_bits [sx; sy])) x y < curve_cap [sx; sy].
+Proof. exact clamp_safe_over_hilbert. Qed.
 
 (* "clamp placed below an interpolator": with the clamp directly over row-major array storage, a box inside
    the extents and storage addressable by the index type, EVERY coordinate the interpolator can convert to
@@ -85,6 +102,7 @@ Proof. eexists. vm_compute. reflexivity. Qed.
 
 Print Assumptions C10_clamp_in_box.
 Print Assumptions C10_linear_over_clamp_safe.
+Print Assumptions C10_clamp_safe_over_morton.
 Print Assumptions C10_clamp_over_linear_safe.
 Print Assumptions C10_order_irreflexive.
 Print Assumptions C10_clamp_safe_over_array.
